@@ -527,6 +527,7 @@ var cfgLink = tmplCfg{outputs: 1, hidden: 1, genes: 2, traits: 1, params: 1, fix
 var cfgSensors = tmplCfg{outputs: 1, hidden: 1, genes: 2, traits: 2, params: 1, fixedBase: true, biasFree: true, symRecur: true, symEnable: true}
 var cfgSensors2 = tmplCfg{outputs: 1, hidden: 1, genes: 2, traits: 1, params: 1, symRecur: false, symEnable: true, links: [][2]int{{0, 2}, {3, 2}}}
 var cfgLinkLate = tmplCfg{outputs: 1, hidden: 1, genes: 2, traits: 1, params: 1, fixedBase: true, lateInput: true}
+
 // 15 genes: the branch of mutateAddNode that picks the gene to split uniformly at random (genomes of >= 15 genes)
 var cfgLarge = tmplCfg{outputs: 2, hidden: 2, genes: 15, traits: 1, params: 1, symRecur: false, symEnable: false,
 	links: [][2]int{{0, 2}, {0, 3}, {0, 4}, {0, 5}, {1, 2}, {2, 4}, {3, 5}, {2, 5}, {4, 2}, {4, 3}, {4, 5}, {5, 2}, {5, 3}, {5, 4}, {4, 4}}}
